@@ -382,8 +382,18 @@ mutant("c05-pairwise-skips-ahead", "C05", "itertools.py",
        "            yield prev, current  # type: ignore\n            prev = current",
        "            yield prev, current  # type: ignore\n            prev = await anext(async_iter, current)", rule="R05.11")
 mutant("c05-dropwhile-keeps-asking", "C05", "itertools.py",
-       "                yield item\n                break\n        async for item in async_iter:\n            yield item",
-       "                yield item\n                break\n        async for item in async_iter:\n            await predicate(item)\n            yield item", rule="R05.11")
+       "            return\n        async for item in async_iter:\n            yield item",
+       "            return\n        async for item in async_iter:\n            await predicate(item)\n            yield item", rule="R05.11")
+# the defects repaired as F12 (an exhausted source is asked again), one by one
+mutant("c05-dropwhile-asks-exhausted-source-again", "C05", "itertools.py",
+       "        else:\n            # every item was dropped: the iterable is exhausted and not asked again\n            return\n", "", rule="R05.11")
+mutant("c05-islice-asks-exhausted-source-again", "C05", "itertools.py",
+       "            else:\n                # fewer than ``start`` items: the iterable is exhausted and not asked again\n                return\n", "", rule="R05.5")
+mutant("c05-pairwise-asks-exhausted-source-again", "C05", "itertools.py",
+       "        try:\n            prev = await anext(async_iter)\n        except StopAsyncIteration:\n            # no items at all: the iterable is exhausted and not asked again\n            return\n",
+       "        prev = await anext(async_iter, None)\n", rule="R05.11")
+mutant("c05-strict-zip-asks-exhausted-source-again", "C05", "builtins.py",
+       "_sync_builtins.enumerate(aiters[1:], 1):\n            if await anext(_aiter, sentinel)", "_sync_builtins.enumerate(aiters):\n            if await anext(_aiter, sentinel)", rule="R05.11")
 neutral("c01-takewhile-explicit-anext", ["C01", "C05", "C03", "C04", "C06", "C18", "C20"], "itertools.py",
         "        async for item in async_iter:\n            if await predicate(item):\n                yield item\n            else:\n                break\n",
         "        while True:\n            try:\n                item = await anext(async_iter)\n            except StopAsyncIteration:\n                break\n            if not await predicate(item):\n                break\n            yield item\n")
